@@ -80,6 +80,7 @@ type c15Scenario struct {
 	WithExpiry  bool
 	Agent       bool
 	GenSkew     time.Duration // the authority's clock is off by this much (genTime = now + GenSkew)
+	RootsNil    bool          // the caller names no TSA roots at all (SignRequest.TSARootCAs == nil)
 }
 
 func profC15Rev() *RevProfile {
@@ -153,10 +154,18 @@ func genC15(t *Tape) *c15Scenario {
 		if w.TSADefect == TDPathLen && len(w.Certs) < 3 {
 			w.TSADefect = TDCANoCertSign
 		}
-		if len(w.Certs) == 1 && (w.TSADefect == TDCANoCertSign || w.TSADefect == TDCANoKU) {
+		if len(w.Certs) == 1 && (w.TSADefect == TDCANoCertSign || w.TSADefect == TDCANoKU || w.TSADefect == TDCAEKUExcludes) {
 			// a self-signed authority certificate has no separate CA to be defective
 			w.TSADefect = TDLeafKUExtra
 		}
+	}
+	// invalidity dates of the TSA chain's revocation entries lie in the future
+	// of the signing time: the TSA check must not be made "as of" that time
+	w.InvBase = Epoch.Add(2 * time.Hour)
+	if t.Bool(6) {
+		sc.RootsNil = true
+		// ... on a host whose system store happens to trust the authority's root
+		w.UseSysRoot = len(w.Certs) > 1 && t.Bool(70)
 	}
 	rs.Worlds = []*World{w}
 	sc.Rev = rs
@@ -304,7 +313,9 @@ func (sc *c15Scenario) exec(obs *c15Obs) {
 		return
 	}
 	roots := x509.NewCertPool()
-	if w.TSADefect == TDUntrustedRoot {
+	if sc.RootsNil {
+		roots = nil
+	} else if w.TSADefect == TDUntrustedRoot {
 		other, err := Issue(&CertSpec{CN: "other-tsa-root", Key: ka.get("ec256"), IsCA: true, KeyUsage: x509.KeyUsageCertSign, NotBefore: Epoch.Add(-time.Hour * 24 * 365), NotAfter: Epoch.Add(time.Hour * 24 * 3650), MaxPathLen: -1}, nil)
 		if err != nil {
 			obs.Harness = err.Error()
@@ -494,6 +505,7 @@ func evalC15(sc *c15Scenario, obs *c15Obs, rc *ruleCtx) {
 		tokenValid = delivered && sc.Fault.Kind != FWrongCT
 	}
 	chainOK := w.TSADefect == TDNone
+	rootsNamed := !sc.RootsNil
 	// ----- revocation gate by construction -----
 	gate := "pass" // "pass" | "fail" | "vacuous"
 	switch sc.RevMode {
@@ -548,6 +560,9 @@ func evalC15(sc *c15Scenario, obs *c15Obs, rc *ruleCtx) {
 		if !chainOK {
 			rc.fail("C15.T1", "chain_defect="+tsaDefectNames[w.TSADefect], "Sign succeeded although the TSA chain is defective: "+tsaDefectNames[w.TSADefect]+" ("+desc+")")
 		}
+		if !rootsNamed {
+			rc.fail("C15.T1", fmt.Sprintf("no_caller_roots/host_trusted=%v", w.UseSysRoot), fmt.Sprintf("Sign succeeded although the caller named no trusted TSA roots (host store trusts the authority: %v) (%s)", w.UseSysRoot, desc))
+		}
 		switch gate {
 		case "fail":
 			rc.fail("C15.T1", fmt.Sprintf("revocation_gate/mode=%d/vec=%v/err=%v", sc.RevMode, sc.StubVec, sc.StubErr), fmt.Sprintf("Sign succeeded although the TSA chain's revocation status does not allow it (stub vector %v err=%v; %s) (%s)", sc.StubVec, sc.StubErr, viewsDesc(obs.Views), desc))
@@ -587,7 +602,7 @@ func evalC15(sc *c15Scenario, obs *c15Obs, rc *ruleCtx) {
 	if obs.Bytes != nil {
 		rc.fail("C15.T3", "bytes_with_error", "Sign returned an error together with envelope bytes ("+desc+")")
 	}
-	if tokenValid && chainOK && gate == "pass" && sc.Cancel == 0 {
+	if tokenValid && chainOK && rootsNamed && gate == "pass" && sc.Cancel == 0 {
 		// completeness is not in the statement: measured, not asserted
 		rc.st.Probes["c15_valid_tsa_but_sign_failed"]++
 	}
@@ -605,7 +620,7 @@ func describeC15(sc *c15Scenario) any {
 	w := sc.Rev.Worlds[0]
 	return map[string]any{"format": []string{"jws", "cose"}[sc.Format], "key": sc.KeyKind, "remote_signer": sc.Remote, "scheme": []string{"notary.x509", "notary.x509.signingAuthority"}[sc.Scheme],
 		"timestamper": !sc.NoTimestamp, "tsa_behaviour": tsaBehaviourNames[sc.Behaviour], "tsa_http_fault": sc.Fault.String(), "tsa_latency_ms": sc.Latency.Milliseconds(), "tsa_clock_skew_s": sc.GenSkew.Seconds(),
-		"tsa_timeout_ms": sc.Timeout.Milliseconds(), "cancel": sc.Cancel, "cancel_ms": sc.CancelMs, "tsa_chain_len": len(w.Certs), "tsa_chain_defect": tsaDefectNames[w.TSADefect],
+		"tsa_timeout_ms": sc.Timeout.Milliseconds(), "cancel": sc.Cancel, "cancel_ms": sc.CancelMs, "tsa_chain_len": len(w.Certs), "tsa_chain_defect": tsaDefectNames[w.TSADefect], "caller_roots_nil": sc.RootsNil, "host_store_trusts_tsa_root": w.UseSysRoot,
 		"revocation_mode": []string{"none", "stub_vector", "real_validator"}[sc.RevMode], "stub_vector": sc.StubVec, "stub_error": sc.StubErr, "tsa_chain_sources": describeRev(sc.Rev)}
 }
 
